@@ -214,6 +214,17 @@ class FuseBatchNormIntoGemm(_FuseBatchNormBase):
             _outputs=["batchnorm_out"],
         )
 
+    def check(self, context, x, inbound_out: ir.Value, batchnorm_out: ir.Value) -> MatchResult:
+        check_result = super().check(context, x, inbound_out, batchnorm_out)
+        if not check_result:
+            return check_result
+        # The fused bias is computed for a Gemm that adds C as it is: with beta != 1 the
+        # fused Gemm would scale the normalised bias once more.
+        beta = inbound_out.producer().attributes.get_float("beta", 1.0)
+        if beta != 1.0:
+            return check_result.fail(f"Gemm has beta={beta}: only beta=1 is supported.")
+        return check_result
+
 
 fuse_batchnorm_into_conv_rule = FuseBatchNormIntoConv().rule()
 fuse_batchnorm_into_conv_transpose_rule = FuseBatchNormIntoConvTranspose().rule()
